@@ -2,6 +2,7 @@
 edited element, the edit kind, the assigned value (unbounded int) and the recalc option are symbolic.  Oracle:
 reverse reachability computed by the harness from the pointers + value recursion with input overrides."""
 from kit import *  # noqa
+use_formula_memo()
 import os as _os
 
 N = 3
